@@ -8,6 +8,9 @@
 //	             Renew, SignSSH, RenewSSH, RekeySSH (SoftCAS and SSH signers included)
 //	-mode acme   real acme/api handlers (new-order … finalize) on a real authority: order date defaulting
 //	             and Finalize's pass-through of the order's dates
+//	-mode api    real api.SSHSign / api.SSHRenew / api.SSHRekey handlers with an identity CSR / an identity
+//	             certificate as TLS client certificate and an aged SSHPOP certificate; and the migration of
+//	             ca.json provisioners into the admin database (enableAdmin) followed by a reload
 //	-mode prop   oracle: the property predicate itself evaluated on the implementation's output
 //	             (third column = expected "ok")
 package main
@@ -30,6 +33,7 @@ type Case struct {
 	SSH    *SSHCase    `json:",omitempty"`
 	Renew  *RenewCase  `json:",omitempty"`
 	ACME   *ACMECase   `json:",omitempty"`
+	API    *APICase    `json:",omitempty"`
 }
 
 func caseField(k *Case) string {
@@ -55,6 +59,10 @@ func emit(o *c.Out, k *Case) {
 		for _, li := range k.Renew.runAll() {
 			o.Case(li[0]+caseField(k), li[1])
 		}
+	case k.API != nil:
+		for _, li := range k.API.runAll() {
+			o.Case(li[0]+caseField(k), li[1])
+		}
 	case k.ACME != nil:
 		for _, li := range k.ACME.runAll() {
 			o.Case(li[0]+caseField(k), li[1])
@@ -78,7 +86,7 @@ func main() {
 	n := flag.Int("n", 2000, "number of generated cases")
 	out := flag.String("out", "", "output file (input<TAB>impl)")
 	replay := flag.String("replay", "", "file of model input lines (case=… field) to re-run instead of generating")
-	flag.StringVar(&mode, "mode", "unit", "unit | e2e | acme | prop")
+	flag.StringVar(&mode, "mode", "unit", "unit | e2e | acme | api | prop")
 	flag.Parse()
 	o, err := c.NewOut(*out)
 	if err != nil {
